@@ -58,7 +58,7 @@ _KINDS = ["linear", "binary", "mctdh2", "mctdh3", "mctdh2-contract", "mctdh3-con
           "t3ns", "random"]
 _REQUIRED = (["kind:" + k for k in _KINDS]
              + ["multi-set-node", "dummy-root", "dummy-internal", "dummy-leaf", "arity-2", "arity-3", "unary-node",
-                "qn-none", "qn-one", "qn-two", "complex-state", "complex-with-real", "add:coeffs-differ", "bond-dim-1", "gauge:non-canonical", "gauge:non-canonical-on-dimension-one-bonds",
+                "qn-none", "qn-one", "qn-two", "complex-state", "complex-with-real", "add:coeffs-differ", "bond-dim-1", "gauge:non-canonical", "gauge:non-canonical-on-dimension-one-bonds", "2site-rdm:path-through-a-multi-index-node",
                 "partial-operator", "charged-operator", "child-permutation", "post:canonicalised", "from_mps",
                 "aux-space-partial-operator", "one-node-tree", "op:add", "op:scale", "op:apply", "op:canonicalise", "op:compress",
                 "op:centre-walk", "op:norm", "op:expectation", "expectation1", "op:rdm-site", "op:rdm-dof", "op:entropy", "op:mutual-info",
@@ -694,12 +694,22 @@ def obs_rdm_site(ctx, world, a, entropy):
     if n >= 2:
         pairs = []
         nl = world.tree.node_list
+        from rv import trees as _trees
+
+        def inner_multi(i_, j_):
+            path = world.tree.find_path(nl[i_], nl[j_])
+            return any(len([b for b in nd_.basis_sets if not _trees.is_dummy(b)]) > 1 for nd_ in path[1:-1])
+        # pairs whose path runs THROUGH a node with several physical indices are preferred when the tree has them
+        special = [(i_, j_) for i_ in range(n) for j_ in range(n) if i_ != j_ and len(world.tree.find_path(nl[i_], nl[j_])) <= 5
+                   and inner_multi(i_, j_)] if n <= 9 else []
         for _ in range(1 if rng.random() < 0.7 else 2):
             # the library's contraction-path search grows steeply with the path length: long paths are kept but rarer
             for _try in range(3):
                 i, j = rng.choice(n, size=2, replace=False).tolist()
                 if len(world.tree.find_path(nl[i], nl[j])) <= 4 or rng.random() < 0.3:
                     break
+            if special and rng.random() < 0.6:
+                i, j = special[int(rng.integers(0, len(special)))]
             if (i, j) not in pairs:
                 pairs.append((int(i), int(j)))
         arg = pairs[0] if (len(pairs) == 1 and rng.random() < 0.6) else list(pairs)
@@ -715,6 +725,8 @@ def obs_rdm_site(ctx, world, a, entropy):
                 dist = len(world.tree.find_path(world.tree.node_list[pr[0]], world.tree.node_list[pr[1]]))
                 if dist >= 3:
                     ctx.cls("2site-rdm:path-with-inner-nodes")
+                if inner_multi(pr[0], pr[1]):
+                    ctx.cls("2site-rdm:path-through-a-multi-index-node")
                 if entropy:
                     d = int(np.prod(tm.pdims[pr[0]]) * np.prod(tm.pdims[pr[1]]))
                     want = dense.vn_entropy_dm(ref.reshape(d, d))
